@@ -151,6 +151,13 @@ class StreamReversed(StreamWrapper):
                 f"divisible by {self.sample_width}."
             )
         true_address = self.end_of_file - (address + self.true_size)
+        if true_address < 0:
+            # only possible for a stream of size <= 0 (whose reads are not 
+            # clipped): there is nothing before the start to read
+            raise BadReadSize(
+                f"Read Size: {self.true_size} at {address} reaches "
+                f"before the start of the stream."
+            )
         if true_address % self.sample_width != 0:
             raise BadAlign(
                 f"Position: {true_address} is not evenly "
